@@ -15,6 +15,11 @@ def apply(m, dst):
     for ed in m["edits"]:
         p = os.path.join(dst, ed["file"])
         s = open(p).read()
+        if "first_of" in ed:   # the text occurs several times (e.g. locked and single-thread class): take the first
+            if s.count(ed["old"]) != ed["first_of"]:
+                raise SystemExit("mutant %s: pattern occurs %d times in %s" % (m["id"], s.count(ed["old"]), ed["file"]))
+            open(p, "w").write(s.replace(ed["old"], ed["new"], 1))
+            continue
         if s.count(ed["old"]) != 1:
             raise SystemExit("mutant %s: pattern occurs %d times in %s" % (m["id"], s.count(ed["old"]), ed["file"]))
         open(p, "w").write(s.replace(ed["old"], ed["new"]))
